@@ -212,9 +212,9 @@ class Run(object):
             print('VIOLATION property=%s replay=%s' % (self.prop, path))
             return 1
         self.write_evidence()
-        print('%s %s seed=%d: held on %d evaluations (%d distinct non-trivial) in %.1fs; known-hits=%s excluded=%s' % (
+        print('%s %s seed=%d: held on %d evaluations (%d distinct non-trivial) in %.1fs; known-hits=%s excluded-classes=%d' % (
             self.prop, self.tier, self.seed, self.evaluations, len(self.nontrivial),
-            time.time() - self.t0, dict(self.known_hits), dict(self.excluded)))
+            time.time() - self.t0, dict(self.known_hits), len(self.excluded)))
         return 0
 
 
